@@ -93,6 +93,16 @@ func (f *frame) doCall(v *ssa.Call, st *State, reach string) {
 		f.havocCall(v, st, reach, "interface method "+com.Method.FullName())
 		return
 	}
+	if _, isB := com.Value.(*ssa.Builtin); !isB {
+		if fv, ok := f.vals[com.Value]; ok && fv.cb != "" {
+			// ghost callback: records its first argument in the ghost set
+			n := "G_" + fv.cb
+			h := e.heapByName(st, n)
+			st.heaps[n] = e.define(n, e.hsort[n], fmt.Sprintf("(store %s %s true)", h, args[0].term))
+			f.freshResults(v, reach, false)
+			return
+		}
+	}
 	if callee == nil || callee.Blocks != nil && len(callee.FreeVars) > 0 {
 		// closure: resolve through the value
 		fv := f.val(com.Value)
@@ -384,15 +394,25 @@ func (f *frame) putUint(v *ssa.Call, name string, args []Val, st *State, reach s
 	hn, hs := e.heapName(byteT, true)
 	content := fmt.Sprintf("(select %s (s_base %s))", h, sl)
 	val := args[2]
-	for i := 0; i < n; i++ {
-		var b string
-		if e.sc.arith == "int" {
-			div := pow2(8 * i)
-			b = fmt.Sprintf("(mod (div %s %s) 256)", val.term, div)
-		} else {
-			b = fmt.Sprintf("((_ extract %d %d) %s)", 8*i+7, 8*i, val.term)
+	var bytes []string
+	if e.sc.arith == "int" {
+		// linear characterisation: fresh bytes b_i in [0,256) with
+		// val == sum 256^i * b_i (val is already in the range of its unsigned type)
+		var sum []string
+		for i := 0; i < n; i++ {
+			b := e.declare("byte", "Int")
+			bytes = append(bytes, b)
+			e.assume("true", fmt.Sprintf("(and (<= 0 %s) (< %s 256))", b, b))
+			sum = append(sum, fmt.Sprintf("(* %s %s)", pow2(8*i), b))
 		}
-		content = fmt.Sprintf("(store %s %s %s)", content, e.idxAdd(fmt.Sprintf("(s_off %s)", sl), e.idxLit(int64(i))), b)
+		e.assume("true", fmt.Sprintf("(= %s (+ %s))", val.term, strings.Join(sum, " ")))
+	} else {
+		for i := 0; i < n; i++ {
+			bytes = append(bytes, fmt.Sprintf("((_ extract %d %d) %s)", 8*i+7, 8*i, val.term))
+		}
+	}
+	for i := 0; i < n; i++ {
+		content = fmt.Sprintf("(store %s %s %s)", content, e.idxAdd(fmt.Sprintf("(s_off %s)", sl), e.idxLit(int64(i))), bytes[i])
 	}
 	st.heaps[hn] = e.define(hn, hs, fmt.Sprintf("(store %s (s_base %s) %s)", h, sl, content))
 }
@@ -491,7 +511,8 @@ func (f *frame) callByContract(v *ssa.Call, callee *ssa.Function, ctr *Contract,
 	for i, p := range callee.Params {
 		env[p.Name()] = args[i]
 	}
-	for _, r := range ctr.Requires {
+	dreq, dens := e.derived(callee, ctr)
+	for _, r := range append(append([]Clause{}, ctr.Requires...), dreq...) {
 		o := e.oblige("pre", fmt.Sprintf("%s/pre@%s:%s", f.rootName(), shortFn(callee), r.Label), "", reach, f.evalSpecIn(callee, r.Src, st, env, st))
 		o.Slow = r.Slow
 	}
@@ -611,7 +632,7 @@ func (f *frame) callByContract(v *ssa.Call, callee *ssa.Function, ctr *Contract,
 	for i, r := range rs {
 		env[fmt.Sprintf("result%d", i)] = r
 	}
-	for _, en := range ctr.Ensures {
+	for _, en := range append(append([]Clause{}, ctr.Ensures...), dens...) {
 		e.assume(reach, f.evalSpecIn(callee, en.Src, st, env, pre))
 	}
 	f.setResult(v, rs)
